@@ -280,7 +280,102 @@ def k_run_one(params):
     return res(viol=vs, nontrivial=1)
 
 
-KINDS = {"config": k_config, "run_one": k_run_one}
+def k_interface(params):
+    """The orbit continuation interface builds the request (predictor, parameter getter, step, target) from a config: every ordered
+    choice of continuation state indices, with unequal step components, must give predictions offset by the step *in the continuation
+    parameters as the getter reads them*. The real backend is run on the interface-built request with the corrector swapped for the harness one."""
+    import dataclasses
+    from hiten.system.base import System
+    from hiten.system.orbits.base import GenericOrbit
+    from hiten.algorithms.continuation.interfaces import _OrbitContinuationInterface
+    from hiten.algorithms.continuation.config import OrbitContinuationConfig
+    from hiten.algorithms.continuation.options import OrbitContinuationOptions
+    from hiten.algorithms.continuation.backends.pc import _PredictorCorrectorContinuationBackend
+    from hiten.algorithms.continuation.stepping import make_natural_stepper, make_secant_stepper
+    from hiten.algorithms.continuation.stepping.support import _VectorSpaceSecantSupport, _NullStepSupport
+
+    system = System.from_mu(0.01215)
+    L1 = system.get_libration_point(1)
+    seed_state = np.array([0.82, 0.01, 0.03, 0.02, 0.15, -0.01])
+    orbit = GenericOrbit(L1, initial_state=seed_state)
+    viol = {}
+    n = 0
+    nontriv = 0
+    idx_sets = [(i,) for i in range(6)] + [(i, j) for i in range(6) for j in range(6) if i != j] + [(5, 2, 0), (1, 4, 3)]
+    for idx in idx_sets[params["lo"]:params["hi"]]:
+        k = len(idx)
+        step = np.array([0.01, -0.02, 0.005][:k])
+        for stepper in ("natural", "secant"):
+            cfg = OrbitContinuationConfig(state=idx, stepper=stepper)
+            opts = OrbitContinuationOptions(target=np.array([[-10.0] * k, [10.0] * k]), step=step, max_members=4, max_retries_per_step=2, step_min=1e-6, step_max=1.0)
+            iface = _OrbitContinuationInterface()
+            problem = iface.create_problem(domain_obj=orbit, config=cfg, options=opts)
+            req = iface.to_backend_inputs(problem).request
+            for outcomes in (["A", "A", "A"], ["R", "A", "X", "A", "A"], ["A", "R", "R", "A", "A"]):
+                n += 1
+                calls = []
+
+                def corr(pred, _o=outcomes, _c=calls):
+                    i = len(_c)
+                    o = _o[i] if i < len(_o) else "A"
+                    _c.append((np.array(pred, dtype=float), o))
+                    if o == "X":
+                        raise RuntimeError("injected")
+                    if o == "R":
+                        return np.array(pred, dtype=float), 1.0, False
+                    out = np.array(pred, dtype=float)
+                    out[(idx[0] + 1) % 6] += 0.003 * (1 + len(_c))   # the corrector moves a non-parameter component: secants turn
+                    return out, 1e-13, True, {}
+                req2 = dataclasses.replace(req, corrector=corr)
+                if stepper == "secant":
+                    be = _PredictorCorrectorContinuationBackend(stepper_factory=make_secant_stepper(), support_factory=_VectorSpaceSecantSupport)
+                else:
+                    be = _PredictorCorrectorContinuationBackend(stepper_factory=make_natural_stepper(), support_factory=_NullStepSupport)
+                out = be.run(request=req2)
+                nontriv += 1
+                # replay: track last member and current step from the outcomes (halving on failure, clamp irrelevant here)
+                last = np.asarray(req.seed_repr, dtype=float)
+                prev = None
+                cur = step.copy()
+                tag = "indices=%s step=%s stepper=%s outcomes=%s" % (idx, step.tolist(), stepper, "".join(outcomes))
+                for ci, (pred, o) in enumerate(calls):
+                    got = np.asarray(req.parameter_getter(pred), dtype=float) - np.asarray(req.parameter_getter(last), dtype=float)
+                    if stepper == "natural":
+                        if np.max(np.abs(got - cur)) > 1e-13:
+                            viol.setdefault("interface/prediction/natural", violation("interface/prediction/natural",
+                                            "prediction changes the continuation parameters by %s, current step is %s [%s]" % (got.tolist(), cur.tolist(), tag), got, cur))
+                        other = np.delete(pred - last, list(idx))
+                        if np.max(np.abs(other)) > 1e-13:
+                            viol.setdefault("interface/prediction/other_components", violation("interface/prediction/other_components",
+                                            "natural prediction moves components that are not continuation parameters by %s [%s]" % (other.tolist(), tag), other, 0.0))
+                    else:
+                        if prev is None:
+                            d0 = np.zeros(6)
+                            for ii, dd in zip(idx, step):
+                                d0[ii] += dd
+                            tan = d0 / np.linalg.norm(d0)
+                        else:
+                            tan = (last - prev) / np.linalg.norm(last - prev)
+                        exp = tan * float(np.linalg.norm(cur))
+                        if np.max(np.abs((pred - last) - exp)) > 1e-12:
+                            viol.setdefault("interface/prediction/secant", violation("interface/prediction/secant",
+                                            "secant prediction offset %s, expected |step| * unit secant = %s [%s]" % ((pred - last).tolist(), exp.tolist(), tag), pred - last, exp))
+                    if o == "A":
+                        prev = last
+                        # the accepted member is what the corrector returned for this call
+                        acc = np.array(pred, dtype=float)
+                        acc[(idx[0] + 1) % 6] += 0.003 * (1 + (ci + 1))
+                        last = acc
+                    else:
+                        cur = cur * 0.5
+                fam = [np.asarray(f, dtype=float) for f in out.family_repr]
+                pv = out.info["parameter_values"]
+                if any(np.max(np.abs(np.asarray(p) - f[list(idx)])) > 1e-13 for p, f in zip(pv, fam)):
+                    viol.setdefault("interface/parameter_values", violation("interface/parameter_values", "reported parameter values are not the members' continuation parameters in the configured order [%s]" % tag))
+    return res(evals=n, nontrivial=nontriv, viol=list(viol.values()), stats={"interface_runs": n}, sample={"index_sets": [list(i) for i in idx_sets[params["lo"]:params["lo"] + 3]], "runs": n})
+
+
+KINDS = {"config": k_config, "run_one": k_run_one, "interface": k_interface}
 
 
 def cases(tier, seed):
@@ -307,6 +402,8 @@ def cases(tier, seed):
                         for shrink in ("none", "quarter", "raising"):
                             out.append(("config", {"cfg": {"stepper": stepper, "step": step, "target": [tgt[0], tgt[1]], "max_members": mm, "max_retries": mr,
                                                            "step_min": smin, "step_max": smax, "shrink": shrink}}))
+    for lo in range(0, 38, 10):
+        out.append(("interface", {"lo": lo, "hi": lo + 10}))
     return out
 
 
